@@ -87,6 +87,10 @@ const (
 	FitA = "fitA" // MachineA.Fitness_default, 2 ticks
 	FitB = "fitB" // MachineB.Fitness_default, 1 tick
 	Basm = "basm" // basm assembly of a 2-instruction program (BasmInstanceInit -> bmreqs.NewReqRoot)
+	// a simulation that runs to its last tick and then fails while rendering the outputs: the data type applies to
+	// every output but the last (MachineB has two), `signed` is a registered type whose text export is not
+	// implemented, so SinglePipelineSimulate returns an error AFTER it started its workers
+	SpsBErr = "spsBerr"
 )
 
 // EntryPoint names the /repo function a call kind exercises (signature component).
@@ -94,6 +98,8 @@ func EntryPoint(kind string) string {
 	switch kind {
 	case SpsA, SpsB:
 		return "SinglePipelineSimulate"
+	case SpsBErr:
+		return "SinglePipelineSimulate(error return)"
 	case FitA, FitB:
 		return "Fitness_default"
 	case Basm:
@@ -110,16 +116,20 @@ func NewEnv() *Env { return &Env{A: MachineA(), B: MachineB()} }
 // Call performs one single-shot call and returns a rendering of its result.
 func (e *Env) Call(kind string) string {
 	switch kind {
-	case SpsA, SpsB:
+	case SpsA, SpsB, SpsBErr:
 		bm := e.A
-		if kind == SpsB {
+		if kind != SpsA {
 			bm = e.B
 		}
 		in := []string{"5"}
 		if bm.Inputs == 0 {
 			in = nil
 		}
-		out, err := bm.SinglePipelineSimulate("unsigned", in, nil)
+		dataType := "unsigned"
+		if kind == SpsBErr {
+			dataType = "signed"
+		}
+		out, err := bm.SinglePipelineSimulate(dataType, in, nil)
 		if err != nil {
 			return "error: " + err.Error()
 		}
@@ -229,7 +239,7 @@ func seqs(alpha []string, n int) [][]string {
 //	sequential: every sequence over {spsA, spsB} of length 1..maxN with at most two spsB, at most one
 //	in the longest sequences (the two-processor machine multiplies the schedule space by ~40 per call); fitA^k, basm^k for
 //	k = 1..maxN; fitB^k for k = 1..2; the mixed sequences spsA,fitA / fitA,spsA / spsA,basm /
-//	basm,spsA;
+//	basm,spsA; the failing simulation spsBerr alone, before and after spsA;
 //	two callers (caller 1 makes k1 >= 1 calls, caller 2 makes k2 >= 0 calls): (spsA | spsA) on
 //	the SAME machine object with k1+k2 <= 2 (quick) / 3 (thorough); (spsA | spsB) different machines and
 //	(fitA | spsA) with k1+k2 <= 2.  Histories with 4 calls are sequential only (two callers
@@ -267,7 +277,7 @@ func Enumerate(maxN int) []History {
 			add(History{Callers: [][]string{rep(FitB, n)}})
 		}
 	}
-	for _, s := range [][]string{{SpsA, FitA}, {FitA, SpsA}, {SpsA, Basm}, {Basm, SpsA}} {
+	for _, s := range [][]string{{SpsA, FitA}, {FitA, SpsA}, {SpsA, Basm}, {Basm, SpsA}, {SpsBErr, SpsA}, {SpsA, SpsBErr}} {
 		add(History{Callers: [][]string{s[:1]}})
 		add(History{Callers: [][]string{s}})
 	}
